@@ -86,7 +86,7 @@ def run(ctx):
     f = P.fns.get("ProofOfKnowledgeTimestamp<C>::generate")
     if f is not None:
         ev = evaluate(f)
-        oks = [ev.exit_state[b].get(0) for b in R.ok_blocks(f)]
+        oks = [R.ok_value(ev.fn, ev, b) for b in R.ok_blocks(f)]
         good = bool(oks)
         for v in oks:
             inner = [t for t in subterms(v) if t.op == "agg" and t.a[0][1:2] == ("ProofOfKnowledgeTimestamp",)]
